@@ -143,7 +143,7 @@ theorem DErr.otherwise_hit {ds t} {loc : Env} {d : DSt} {c : Choice}
 theorem DErr.xexpr_call {f args} {loc : Env} {d : DSt} {fv vs m scope}
     (hfv : eval (dlook loc d) f = .ok fv)
     (hvs : evalArgs (dlook loc d) args = .ok vs) (hm : getDMacro d fv = .ok m)
-    (hsc : bindParams m.params vs = .ok scope) (h : DErr (.dirs m.dirs m.target) (scope ++ loc) d) :
+    (hsc : bindParams (dlook loc d) m.params vs = .ok scope) (h : DErr (.dirs m.dirs m.target) (scope ++ loc) d) :
     DErr (.xexpr (.call f args)) loc d :=
   DErr.step (fun _ => by simp [doc, hfv, hvs, hm, hsc, bind, Except.bind]) h
 
